@@ -16,7 +16,19 @@ def main():
     if a.prop == "--setup" or a.prop == "setup":
         sys.exit(common.setup_all())
     mod = importlib.import_module("harness." + a.prop.lower())
-    sys.exit(common.run_check(mod, a.tier, a.seed, a.replay))
+    try:
+        rc = common.run_check(mod, a.tier, a.seed, a.replay)
+    except Exception as e:  # the check itself could not run to the end (e.g. the package no longer imports, a generator or
+        # runner met something it cannot handle): the property is not shown to hold -> report it in the agreed format
+        import traceback
+        tb = traceback.format_exc()
+        path = common.write_replay(a.prop, {"property": a.prop, "no_failing_input_found": True,
+                                            "broken": "the check could not be completed: " + repr(e), "traceback": tb[-4000:]})
+        print(f"VIOLATION property={a.prop} replay={path} no-failing-input-found")
+        print("  the check could not be completed: " + repr(e))
+        print(tb[-1500:])
+        rc = 1
+    sys.exit(rc)
 
 
 if __name__ == "__main__":
